@@ -128,7 +128,7 @@ pub fn run(ctx: &Ctx, out: &mut CaseOut) {
     // every 7th case: the multi-answer fragment
     let multi = ctx.k % 7 == 6 && !propositional;
     let (prog, multi_goals) = if multi {
-        let (p, g) = gen_multi_answer(&mut r);
+        let (p, g) = gen_multi_or_graph(&mut r);
         (p, g)
     } else {
         (prog, vec![])
